@@ -217,12 +217,53 @@ theorem stale_consumer_never_served (consumer : Ruv) (now t view at_ : Cid) (s :
   · intro hr
     rcases h with h | h <;> rw [h] at hr <;> cases hr
 
+/-! ## The refusal sentence as given is false of the code -/
+
+/-- "A replica that has been out of contact for longer than the changelog window is refused": all the
+consumer ever held of server `k` predates the supplier's trim `t` — whatever the consumer has meanwhile
+trimmed from its own update vector (`ownTrim`) — and the supplier still lists `k`; then the reply is a
+refusal. -/
+def lagging_always_refused : Prop :=
+  ∀ (held : RuvData) (ownTrim now t view : Cid) (s : Server) (k : Nat),
+    (∃ c ∈ held, c.sUuid = k) → (∀ c ∈ held, c.sUuid = k → c.ts < t.ts) →
+    (lookup (filterView view (rangesOf (reap now t s).ruv)) k).isSome = true →
+    (supplyDecision (rangesOf (trimUpTo ownTrim held)) (reap now t s).ruv view = .reply .refreshRequired
+      ∨ supplyDecision (rangesOf (trimUpTo ownTrim held)) (reap now t s).ruv view = .reply .unwillingToSupply)
+
+/-- It is not (finding D51, class `D46:lagging-consumer-forgot-origin-served`): the consumer's own trim removes the stale origin from its update vector
+(`trim_up_to` drops a server left without timestamps); the supplier then takes it for a server the
+consumer has never seen and supplies `[0, max]` — of which its trimmed index holds only the anchor. -/
+theorem lagging_always_refused_false : ¬ lagging_always_refused := by
+  intro h
+  have := h [⟨86400000000000, 1⟩, ⟨86400000000000, 2⟩, ⟨1036800000000000, 2⟩]
+    ⟨950400000000000, 0⟩ ⟨1555200000000000, 1⟩ ⟨950400000000000, 0⟩ ⟨950400000000000, 0⟩
+    ⟨1, [], [⟨86400000000000, 1⟩, ⟨172800000000000, 1⟩, ⟨1036800000000000, 2⟩]⟩ 1
+    (by decide) (by decide) (by decide)
+  revert this
+  decide
+
+/-- What remains true is exact: a consumer that lags on a server the supplier lists is served only if it
+no longer lists that server itself. -/
+theorem served_though_lagging_only_if_forgotten (consumer : Ruv) (now t view : Cid) (s : Server)
+    (k : Nat) (r : Ruv)
+    (hlisted : (lookup (filterView view (rangesOf (reap now t s).ruv)) k).isSome)
+    (hserved : supplyDecision consumer (reap now t s).ruv view = .supply r
+      ∨ supplyDecision consumer (reap now t s).ruv view = .reply .noChangesAvailable) :
+    ∀ c, lookup consumer k = some c → t.ts ≤ c.tsMax := by
+  intro c hc
+  cases hlt : decide (c.tsMax < t.ts) with
+  | false => simpa using hlt
+  | true =>
+    have hold : c.tsMax < t.ts := by simpa using hlt
+    have h := lagging_consumer_refused consumer now t view s k c hc hold hlisted
+    rcases hserved with hs | hs <;> rcases h with h | h <;> rw [h] at hs <;> cases hs
+
 /-! ## Non-vacuity -/
 
 /-- server 2 reaped at day 11 (it wrote at day 18); the consumer last heard of server 2 at day 9:
 refresh required; a consumer that heard of it at day 12 is supplied -/
 example :
-    let day : Nat := 86400
+    let day : Nat := 86400 * 1000000000
     let s : Server := ⟨2, [(7, .tomb ⟨10 * day, 2⟩), (8, .tomb ⟨15 * day, 2⟩)],
       [⟨9 * day, 2⟩, ⟨10 * day, 2⟩, ⟨12 * day, 2⟩, ⟨15 * day, 2⟩, ⟨9 * day, 1⟩]⟩
     let now : Cid := ⟨18 * day, 2⟩
